@@ -116,9 +116,18 @@ def make_table(rng):
         for r in extra:
             r["chain"] = ch
             r["occ"], r["b"], r["model"] = 1.0, 0.0, 1
-        rows += extra
-    if len({r["chain"] for r in rows}) == 1 and rng.random() < 0.2:
-        pass
+        if rng.random() < 0.5 and len(keys) >= 4:
+            # the other chain's records sit in the middle of this chain's records (legitimate,
+            # e.g. hetero groups or a second strand written between two segments)
+            # keys were recorded before renumbering: cut at a residue boundary found positionally
+            bounds = [i for i in range(1, len(rows)) if (rows[i]["chain"], rows[i]["resseq"], rows[i]["icode"]) != (rows[i - 1]["chain"], rows[i - 1]["resseq"], rows[i - 1]["icode"])]
+            if bounds:
+                cut = bounds[len(bounds) // 2]
+                rows = rows[:cut] + extra + rows[cut:]
+            else:
+                rows += extra
+        else:
+            rows += extra
     for i, r in enumerate(rows, 1):
         r["serial"] = i
         r["alt"] = None
